@@ -27,6 +27,49 @@ theorem v82_line_too_long (toks : List (Nat × Nat)) (l c : Nat) (h : (l, c) ∈
 /- V83 (header removed) is `C13.reject_no_header`; V84a–f (guard mutations) are `C14.wrong_symbol`,
 `missing_define`, `doubled`, `code_before`, `code_after` — imported above, re-checked with this file. -/
 
+
+/-! ### End to end, for every rule table: violations caught by the always-run checks -/
+
+/-- **V41 (ternary)**: in every file that reaches a verdict, whatever the primaries and the
+other checks do, every `?` token gets `TERNARY_FBIDDEN` at its own position — `CheckTernary`
+runs after every matched primary and the statements tile the token list (C07). -/
+theorem ternary_e2e {σ : Type} (step : σ → Nat → StepRes σ) (s s' : σ) (toks : List Token)
+    (t : List Segment) (u : List Nat) (h : engineRun step 0 s toks.length = .ok s' t u)
+    (tk : Token) (htk : tk ∈ toks) (hty : tk.type = "TERN_CONDITION") :
+    tokDiag "TERNARY_FBIDDEN" tk ∈ alwaysDiagsRun toks t := by
+  obtain ⟨g, hg, hseg⟩ := token_in_some_segment step s s' toks t u h tk htk
+  unfold alwaysDiagsRun
+  refine List.mem_flatMap.mpr ⟨g, hg, ?_⟩
+  unfold alwaysDiags
+  refine List.mem_append.mpr (Or.inl (List.mem_map.mpr ⟨tk, ?_, rfl⟩))
+  unfold ternaryToks
+  exact List.mem_filter.mpr ⟨hseg, by simp [hty]⟩
+
+/-- … and `CheckTernary` never invents one: each such diagnostic sits on a `?` token of the file. -/
+theorem ternary_sound (toks : List Token) (t : List Segment) (d : Diag)
+    (hd : d ∈ alwaysDiagsRun toks t) (hn : d.name = "TERNARY_FBIDDEN") :
+    ∃ tk ∈ toks, tk.type = "TERN_CONDITION" ∧ d = tokDiag "TERNARY_FBIDDEN" tk := by
+  unfold alwaysDiagsRun at hd
+  obtain ⟨g, _, hdg⟩ := List.mem_flatMap.mp hd
+  unfold alwaysDiags at hdg
+  rcases List.mem_append.mp hdg with hm | hm
+  · obtain ⟨tk, htk, rfl⟩ := List.mem_map.mp hm
+    unfold ternaryToks at htk
+    obtain ⟨h1, h2⟩ := List.mem_filter.mp htk
+    exact ⟨tk, segToks_sub toks g tk h1, by simpa using h2, rfl⟩
+  · obtain ⟨tk, _, rfl⟩ := List.mem_map.mp hm
+    rw [C03.tokDiag_name] at hn; exact absurd hn (by decide)
+
+/- V82 end to end (a line wider than 80 columns ending in a newline token is reported, for every
+rule table) is `C03.long_line_reported`. -/
+
+/-- Non-vacuity: two statements, a ternary in the second, a token beyond column 81 in the first. -/
+example :
+    let toks : List Token := [⟨"IDENTIFIER", 1, 1, some "a", 0, 1⟩, ⟨"SEMI_COLON", 1, 83, none, 82, 83⟩, ⟨"NEWLINE", 1, 84, none, 83, 84⟩,
+      ⟨"IDENTIFIER", 2, 1, some "b", 84, 85⟩, ⟨"TERN_CONDITION", 2, 3, none, 86, 87⟩, ⟨"NEWLINE", 2, 4, none, 87, 88⟩]
+    (alwaysDiagsRun toks [⟨"A", 0, 3⟩, ⟨"B", 3, 3⟩]).map (fun d => (d.name, d.highlights.map (fun h => (h.line, h.col))))
+      = [("LINE_TOO_LONG", [(1, 83)]), ("TERNARY_FBIDDEN", [(2, 3)])] := by decide +kernel
+
 /-- V23 / V27 / V33 / V34 (one past a counter limit): the comparison fires. -/
 theorem counters_fire : tooManyVars 6 = true ∧ tooManyArgs 4 = true ∧ tooManyLines 27 = true ∧ tooManyFuncs 6 = true := by
   decide
